@@ -32,8 +32,12 @@ def gen_system(rng, tag, sparse=0.0):
         derived[dname] = [add(dname) for _ in range(rng.choice([1, 2]))]
     decls = []
     def declare(ua, ub):
-        # ua (a spec) equals 2**k ub, with k from the hidden sizes
-        ka = sum(units[n]["k"] * e for _, n, e in ua); kb = sum(units[n]["k"] * e for _, n, e in ub)
+        # ua (a spec) equals 2**k ub, with k from the hidden sizes; sometimes the declaration is written with prefixed units
+        if rng.random() < 0.25:
+            ua = [[rng.choice([[2, 3], [2, -2], [2, 7]]), n, e] if i == 0 else [p, n, e] for i, (p, n, e) in enumerate(ua)]
+        if rng.random() < 0.2:
+            ub = [[rng.choice([[2, 4], [2, -1]]), n, e] if i == 0 else [p, n, e] for i, (p, n, e) in enumerate(ub)]
+        ka = sum((units[n]["k"] + (p[1] if p else 0)) * e for p, n, e in ua); kb = sum((units[n]["k"] + (p[1] if p else 0)) * e for p, n, e in ub)
         r = Fraction(2) ** (ka - kb)
         kind = "int" if r.denominator == 1 else "float"
         decls.append([ua, [kind, str(r.numerator), str(r.denominator)], ub])
